@@ -346,6 +346,10 @@ func (p proxyHandler) writeErrorResponse(rw http.ResponseWriter, req *http.Reque
 		if res.StatusCode == http.StatusProxyAuthRequired {
 			challenge = res.Header.Values("Proxy-Authenticate")
 		}
+	} else {
+		// The response was built for the transport's own CONNECT request; it answers the client's request.
+		res.Request = req
+		res.Proto, res.ProtoMajor, res.ProtoMinor = req.Proto, req.ProtoMajor, req.ProtoMinor
 	}
 	if err := p.modifyResponse(res); err != nil {
 		log.Error(req.Context(), "error modifying error response", "error", err)
